@@ -38,7 +38,7 @@ def main():
             sh(regen)
         rc1, out1 = demo(d)
         res["demo_with_change"] = {"exit": rc1, "tail": out1[-300:]}
-        ck = subprocess.run(["./check", pid], capture_output=True, text=True, cwd=HERE, env=dict(os.environ, PYVC_REPO=WT), timeout=3000)
+        ck = subprocess.run(["./check", pid], capture_output=True, text=True, cwd=HERE, env=dict(os.environ, PYVC_REPO=WT, PYVC_EVIDENCE_DIR="/tmp/pyvc_seeded_evidence", PYVC_REPLAY_DIR="/tmp/pyvc_seeded_replays"), timeout=3000)
         lines = [l for l in ck.stdout.splitlines() if l.startswith(("VIOLATION", "UNDECIDED", "CHECKER-ERROR", "KNOWN-FINDING", "   failed obligation"))]
         res["check"] = {"cmd": f"PYVC_REPO=<patched checkout> ./check {pid}", "exit": ck.returncode, "lines": [l[:300] for l in lines][:12]}
     finally:
